@@ -381,6 +381,10 @@ def naming(kind, n_max=12):
         return {k: 8 * (k - 1) for k in range(1, n_max + 1)}
     if kind == "big":
         return {k: 100 + k for k in range(1, n_max + 1)}
+    if kind == "weird":
+        # names containing the characters of the printed form of a ranking: different rankings may PRINT alike
+        w = ["a", "b", "a}, {b", "c", "b}, {c", "{a", "a, b", "d", "e", "f", "g", "h"]
+        return {k: w[(k - 1) % len(w)] + ("" if k <= len(w) else str(k)) for k in range(1, n_max + 1)}
     if kind == "neg":
         return {k: -k for k in range(1, n_max + 1)}
     if kind == "zero":
